@@ -165,6 +165,9 @@ class Outcome:
                         self.known_lines.append(line)
                         print(line)
                     return
+        if len(self.violations) >= 5:
+            self.suppressed = getattr(self, "suppressed", 0) + 1
+            return
         os.makedirs(REPLAYS, exist_ok=True)
         blob = json.dumps(replay_obj, indent=1, sort_keys=True, default=str)
         h = hashlib.sha256(blob.encode()).hexdigest()[:12]
